@@ -412,16 +412,11 @@ func (p *Program) ground(check string) *GroundResult {
 		res.Statement = "all entries of one version group carry the same version number"
 		for i, fam := range t.Ranges {
 			for j, grp := range fam {
-				ver := ""
+				ver := groupVersion(grp)
 				for _, id := range grp {
 					res.Rows++
 					s := shapeOf(id)
-					if !s.ok {
-						continue
-					}
-					if ver == "" {
-						ver = s.version
-					} else if s.version != ver {
+					if s.ok && ver != "" && s.version != ver {
 						fail(fmt.Sprintf("%s in group [%d][%d] of version %s", id, i, j, ver))
 					}
 				}
@@ -437,14 +432,14 @@ func (p *Program) ground(check string) *GroundResult {
 					fail(fmt.Sprintf("empty group [%d][%d]", i, j))
 					continue
 				}
-				s := shapeOf(grp[0])
-				if !s.ok {
+				ver := groupVersion(grp)
+				if ver == "" {
 					continue
 				}
-				if prev != "" && cmpVersion(prev, s.version) >= 0 {
-					fail(fmt.Sprintf("family %d: version %s at step %d does not come after %s", i, s.version, j, prev))
+				if prev != "" && cmpVersion(prev, ver) >= 0 {
+					fail(fmt.Sprintf("family %d: version %s at step %d does not come after %s", i, ver, j, prev))
 				}
-				prev = s.version
+				prev = ver
 			}
 		}
 	case "rangesFamilyComplete":
@@ -522,4 +517,22 @@ func posStr(f, v int, ok bool) string {
 		return "not in the table"
 	}
 	return fmt.Sprintf("at family %d step %d", f, v)
+}
+
+// groupVersion: the version a group stands for: that of its first entry that is not an '-or-later' spelling.
+func groupVersion(grp []string) string {
+	for _, id := range grp {
+		if strings.HasSuffix(id, "-or-later") {
+			continue
+		}
+		if s := shapeOf(id); s.ok {
+			return s.version
+		}
+	}
+	for _, id := range grp {
+		if s := shapeOf(id); s.ok {
+			return s.version
+		}
+	}
+	return ""
 }
